@@ -271,9 +271,17 @@ def gen_problem(rng, njobs=None, metric=None, nlocs=None, tight=None, multi=True
         on = (frng4.chance(1, 3) and f in allow) if features is None else f in features
         if on and FEATURE4_ADD[f](frng4, problem, mats or [matrix], tight):
             feats4.append(f)
+    # round five (recharge stations, shared reload resources): as round four - own forked stream per feature, drawn only for
+    # callers that ALLOW it (the plugins that evaluate Spec/ValidY.v)
+    feats5 = []
+    for f in FEATURES5:
+        frng5 = rng.fork('feature5-' + f)
+        on = (frng5.chance(*FEATURE5_ODDS[f]) and f in allow) if features is None else f in features
+        if on and FEATURE5_ADD[f](frng5, problem, mats or [matrix], tight):
+            feats5.append(f)
     return {'problem': problem, 'matrices': mats or [matrix],
             'meta': {'n': n, 'metric': bool(metric), 'tight': bool(tight), 'njobs': njobs,
-                     'features': feats + feats2 + feats3 + feats4}}
+                     'features': feats + feats2 + feats3 + feats4 + feats5}}
 
 
 FEATURES2 = ('breaks',)
@@ -440,7 +448,129 @@ def add_clustering(frng, problem, mats, tight=False):
 FEATURES4 = ('replace', 'reqbreak', 'cluster')
 FEATURE4_ADD = {'replace': add_replacements, 'reqbreak': add_required_breaks, 'cluster': add_clustering}
 # what the plugins built on the full checker (C01, C02, C03) pass as `allow=`: general routing data + every round-four feature
-ALLOW_E2E = ('tdm', 'replace', 'reqbreak', 'cluster')
+ALLOW_E2E = ('tdm', 'replace', 'reqbreak', 'cluster', 'recharge', 'resource', 'rbreload')
+
+
+def add_recharges(frng, problem, mats, tight=False):
+    """'recharge' (ROUND FIVE): RECHARGE STATIONS (vehicles.md `recharges`, experimental; model.rs VehicleRecharges: "Maximum
+    traveled distance before recharge station has to be visited", stations = places, "Each can be visited only once") on the
+    shifts of most vehicle types: `maxDistance` = the length of a random walk of 2-4 legs from the shift's start location (plus
+    0 / 0 / 0 / 1 / 5), so that tours exactly AT the limit occur; 1-3 stations per shift at random locations (often a location a
+    job uses), duration 0 / 5 / 10 / 15, a quarter with a time window, a third with a tag; combined freely with reloads, optional
+    breaks, capacity dimensions, errorCodes, general routing data.  Not on problems with required breaks or clustering (their
+    rules live in Spec/ValidX.v: round five reuses Valid.v / ValidTD.v)."""
+    if problem['plan'].get('clustering') or any(required_breaks(sh) for v in problem['fleet']['vehicles'] for sh in v['shifts']):
+        return False
+    m = mats[0]
+    n = matrix_size(m)
+    di = m['distances']
+    done = False
+    for v in problem['fleet']['vehicles']:
+        if done and not frng.chance(3, 4):
+            continue
+        for sh in v['shifts']:
+            if done and not frng.chance(4, 5):
+                continue
+            loc, tot = sh['start']['location']['index'], 0
+            for _ in range(frng.range(2, 4)):
+                nxt = frng.below(n)
+                tot += max(di[loc * n + nxt], 0)
+                loc = nxt
+            md = max(tot + frng.choice([0, 0, 0, 1, 5]), frng.range(15, 40))
+            e1 = secs(sh['start']['earliest'])
+            stations = []
+            for k in range(frng.choice([1, 2, 2, 3])):
+                st = {'location': {'index': frng.below(n)}, 'duration': frng.choice([0, 5, 10, 15])}
+                if frng.chance(1, 4):
+                    a = e1 + frng.range(0, 150)
+                    if sh.get('end'):
+                        a = min(a, secs(sh['end']['latest']))
+                    st['times'] = [[rfc(a), rfc(a + frng.range(60, 500))]]
+                if frng.chance(1, 3):
+                    st['tag'] = 'rc%d' % (k + 1)
+                stations.append(st)
+            sh['recharges'] = {'maxDistance': md, 'stations': stations}
+            done = True
+    return done
+
+
+def add_reload_resources(frng, problem, mats, tight=False):
+    """'resource' (ROUND FIVE): SHARED RELOAD RESOURCES (resources.md): `fleet.resources` with 1-2 resources of type reload whose
+    capacity vector (as long as the vehicles' capacity) is small - 1-4 in the first dimension - and a `resourceId` on about 3/4 of
+    the reloads of all shifts, so that several vehicles / reload stops draw on ONE resource and it is exhausted exactly.  Only for
+    problems that have reloads (feature `reloads`); when no shift has one, one is added to the first shift.  Two reloads of one
+    shift with the same location and duration get the same resource (the document does not say which reload a stop used).  Not on
+    problems with required breaks or clustering."""
+    vehicles = problem['fleet']['vehicles']
+    if problem['plan'].get('clustering') or any(required_breaks(sh) for v in vehicles for sh in v['shifts']):
+        return False
+    shifts = [sh for v in vehicles for sh in v['shifts'] if sh.get('reloads')]
+    if not shifts:
+        return False
+    k = max(len(v['capacity']) for v in vehicles)
+    names = ['res_a', 'res_b'][:frng.choice([1, 1, 2])]
+    problem['fleet']['resources'] = [{'type': 'reload', 'id': x,
+                                      'capacity': [frng.choice([1, 2, 2, 3, 4])] + [frng.choice([1, 2, 4, 6]) for _ in range(k - 1)]}
+                                     for x in names]
+    some = False
+    for sh in shifts:
+        seen = {}
+        for r in sh['reloads']:
+            key = (r['location']['index'], int(r['duration']))
+            if key in seen:
+                rid = seen[key]
+            else:
+                rid = frng.choice(names) if (frng.chance(3, 4) or not some) else None
+                seen[key] = rid
+            if rid is not None:
+                r['resourceId'] = rid
+                some = True
+    return some
+
+
+def _rb_allowed(problem, mats):
+    # not with matrix errorCodes either: an unreachable leg left behind by a removal (finding C01-F4) has duration -1, and the clock
+    # around reserved times (ValidX.adv) is specified for non-negative travel times only
+    return not (general_routing({'problem': problem, 'matrices': mats}) or problem['plan'].get('clustering') or mats[0].get('errorCodes')
+                or has_recharges({'problem': problem}) or has_resources({'problem': problem}))
+
+
+def add_required_breaks_reload(frng, problem, mats, tight=False):
+    """'rbreload' (ROUND FIVE): REQUIRED breaks on shifts that also have RELOADS (multi-trip tours around reserved times; round four
+    kept them apart): 1-2 per shift, all exact times or all offsets, pairwise disjoint; start.latest = start.earliest as everywhere
+    (break.md: departure rescheduling has to be disabled, "a hard requirement when such break type is used"); only on shifts without
+    optional breaks."""
+    if not _rb_allowed(problem, mats):
+        return False
+    done = False
+    for v in problem['fleet']['vehicles']:
+        for sh in v['shifts']:
+            if sh.get('breaks') or not sh.get('reloads') or (done and not frng.chance(3, 4)):
+                continue
+            e1 = secs(sh['start']['earliest'])
+            end = secs(sh['end']['latest']) if sh.get('end') else e1 + 700
+            offset = frng.chance(1, 2)
+            brs, lo = [], e1 + frng.choice([frng.range(5, 40), frng.range(20, 150)])
+            for k in range(frng.choice([1, 1, 2])):
+                width = frng.choice([0, 0, frng.range(5, 30), frng.range(20, 90)])
+                dur = frng.choice([5, 10, 15, 30])
+                if lo > end - 1:
+                    break
+                a, b = lo, lo + width
+                brs.append({'time': {'earliest': a - e1, 'latest': b - e1} if offset else {'earliest': rfc(a), 'latest': rfc(b)},
+                            'duration': dur})
+                lo = b + dur + frng.range(10, 120)
+            if brs:
+                sh['breaks'] = brs
+                sh['start']['latest'] = sh['start']['earliest']
+                done = True
+    return done
+
+
+FEATURES5 = ('recharge', 'resource', 'rbreload')
+FEATURE5_ADD = {'recharge': add_recharges, 'resource': add_reload_resources, 'rbreload': add_required_breaks_reload}
+# `resource` / `rbreload` need reloads (1/3 of the problems)
+FEATURE5_ODDS = {'recharge': (1, 3), 'resource': (2, 3), 'rbreload': (1, 2)}
 
 
 def add_routing_features(frng, problem, matrix, feats):
@@ -525,7 +655,8 @@ def add_features2(frng, problem, matrix, feats, tight=False):
                     durs = frng.shuffle([0, 3, 5, 10, 15, 20])[:np_]
                     if durs == [0] and frng.chance(2, 3):
                         durs = [7]
-                    locs = frng.shuffle(list(range(n)))[:np_]
+                    locs = frng.shuffle(list(range(n)))
+                    locs = (locs * np_)[:np_]               # (a problem with one location: fewer locations than places)
                     places = []
                     for i in range(np_):
                         pl = {'duration': durs[i]}
@@ -689,6 +820,7 @@ def location_refs(problem):
                 locs.append(sh['end']['location'])
             locs += [r['location'] for r in sh.get('reloads') or []]
             locs += [pl['location'] for b in optional_breaks(sh) for pl in b['places'] if pl.get('location') is not None]
+            locs += [st['location'] for st in (sh.get('recharges') or {}).get('stations') or []]
     return locs
 
 
@@ -770,6 +902,14 @@ class Ids:
                     for pl in b['places']:
                         if pl.get('tag') is not None:
                             self.tags.setdefault(pl['tag'], len(self.tags) + 1)
+        for t in pr['fleet']['vehicles']:
+            for sh in t['shifts']:
+                for st in (sh.get('recharges') or {}).get('stations') or []:
+                    if st.get('tag') is not None:
+                        self.tags.setdefault(st['tag'], len(self.tags) + 1)
+        self.resources = {}
+        for r in pr['fleet'].get('resources') or []:
+            self.resources.setdefault(r['id'], len(self.resources) + 1)
         self.groups, self.compats = {}, {}
         for j in pr['plan']['jobs']:
             if j.get('group') is not None:
@@ -797,6 +937,9 @@ class Ids:
 
     def skill(self, s):
         return self._get(self.skills, s)
+
+    def resource(self, s):
+        return self._get(self.resources, s)
 
     def job_name(self, k):
         for s, v in self.jobs.items():
@@ -1069,16 +1212,73 @@ def needs_x(p):
     return has_required_breaks(p) or bool(p['problem']['plan'].get('clustering'))
 
 
-def term_A(c, s, ids, P='P', S='S'):
-    """group A (C02) on the let-bound problem P and solution S: Valid.accounted_b plus the round-four rules"""
-    return '(accounted4 %s %s %s %s)' % (g_xproblem(c, ids), g_xsolution(c, s, ids), P, S)
+def shift_recharges(sh):
+    return sh.get('recharges') or None
+
+
+def has_recharges(p):
+    return any(shift_recharges(sh) for vt in p['problem']['fleet']['vehicles'] for sh in vt['shifts'])
+
+
+def has_resources(p):
+    return bool(p['problem']['fleet'].get('resources')) or \
+        any(r.get('resourceId') is not None for vt in p['problem']['fleet']['vehicles'] for sh in vt['shifts'] for r in sh.get('reloads') or [])
+
+
+def needs_y(p):
+    """does the problem use a ROUND-FIVE feature (recharge stations, shared reload resources: Spec/ValidY.v)?"""
+    return has_recharges(p) or has_resources(p)
+
+
+def g_yproblem(p, ids=None):
+    """Gallina term of type ValidY.yproblem: recharges per (vehicle type, shift), the resourceId of every reload per (vehicle type,
+    shift), fleet.resources"""
+    ids = ids or Ids(p)
+    rc, rs = [], []
+    for vt in p['problem']['fleet']['vehicles']:
+        for k, sh in enumerate(vt['shifts']):
+            r = shift_recharges(sh)
+            if r:
+                rc.append('(%s, %s, mkRecharge %s %s)' % (z(ids.vtype(vt['typeId'])), nat(k), z(int(r['maxDistance'])),
+                                                          lst(r.get('stations') or [], lambda st: g_place(ids, st))))
+            rl = sh.get('reloads') or []
+            if any(x.get('resourceId') is not None for x in rl):
+                rs.append('(%s, %s, %s)' % (z(ids.vtype(vt['typeId'])), nat(k),
+                                            lst(rl, lambda x: zopt(None if x.get('resourceId') is None else ids.resource(x['resourceId'])))))
+    res = ['(%s, %s)' % (z(ids.resource(r['id'])), zlist([int(x) for x in r['capacity']]))
+           for r in p['problem']['fleet'].get('resources') or []]
+    return '(mkYProblem [%s] [%s] [%s])' % ('; '.join(rc), '; '.join(rs), '; '.join(res))
+
+
+def term_A(c, s, ids, P='P', S='S', X=None, XS=None):
+    """group A (C02) on the let-bound problem P and solution S: Valid.accounted_b plus the round-four rules; for a problem with
+    recharge stations ValidY.accounted5 (= accounted4 on the document with its recharge activities masked ++ ARecharge)"""
+    X = X or g_xproblem(c, ids)
+    XS = XS or g_xsolution(c, s, ids)
+    if has_required_breaks(c):
+        # ValidY.accounted6: on the tours with required breaks the reload clause reads the NET length of a reload activity
+        return '(accounted6 %s %s %s %s %s)' % (g_yproblem(c, ids), X, XS, P, S)
+    if has_recharges(c):
+        return '(accounted5 %s %s %s %s %s)' % (g_yproblem(c, ids), X, XS, P, S)
+    return '(accounted4 %s %s %s %s)' % (X, XS, P, S)
+
+
+def term_span(c, s, ids, S='S'):
+    """ValidY.break_span_viols on the let-bound S: [(tour, start)] of the reported required breaks that begin before their tour departs"""
+    if not has_required_breaks(c):
+        return '(@nil (Z * Z))'
+    return '(break_span_viols %s %s)' % (g_xproblem(c, ids), S)
 
 
 def term_F(c, s, ids, R='R', P='P', S='S'):
     """group F (C01): for a problem with required breaks / clustering ValidX.feasible4 (= feasible_viols ++ xfeasible_viols around the
-    reserved times, proved equal to them for a problem without), otherwise the expression the plugin evaluated before round four"""
+    reserved times, proved equal to them for a problem without), otherwise the expression the plugin evaluated before round four;
+    for a problem with recharge stations ValidY.feasible5 (the same functions on the document whose recharge activities are
+    presented as service activities of a pseudo job ++ FRechargeDistance)"""
     if needs_x(c):
         return '(feasible4 %s %s %s %s)' % (g_xproblem(c, ids), g_xsolution(c, s, ids), P, S)
+    if has_recharges(c):
+        return '(feasible5 %s %s %s %s)' % (g_yproblem(c, ids), R, P, S)
     return '(feasible_viols_x %s %s %s ++ xfeasible_viols %s %s)' % (R, P, S, P, S)
 
 
@@ -1086,7 +1286,19 @@ def term_R(c, s, ids, R='R', P='P', S='S'):
     """group R (C03), likewise"""
     if needs_x(c):
         return '(replay4 %s %s %s %s)' % (g_xproblem(c, ids), g_xsolution(c, s, ids), P, S)
+    if has_recharges(c):
+        return '(replay5 %s %s %s %s)' % (g_yproblem(c, ids), R, P, S)
     return '(replay_viol_x %s %s %s ++ xreplay_viols %s %s)' % (R, P, S, P, S)
+
+
+def term_resources(c, s, ids, P='P', S='S'):
+    """(ValidY.resource_viols, ValidY.res_ambiguous) on the let-bound P and S: [(resource id, dimension)] of the shared reload
+    resources from which the tours load more static deliveries than the resource holds; [(type id, shift)] whose reloads do not
+    determine the resource (a precondition); two empty lists for a problem without resources"""
+    if not has_resources(c):
+        return '(@nil (Z * Z), @nil (Z * Z))'
+    y = g_yproblem(c, ids)
+    return '(resource_viols %s %s %s, res_ambiguous %s %s)' % (y, P, S, y, P)
 
 
 def tour_required_breaks(p, tour):
@@ -1113,7 +1325,8 @@ def rb_unreported_time(p, tour):
     break into account - TransitBreakMoved: moved in front of a drive - without writing the activity)"""
     if not tour_required_breaks(p, tour):
         return 0
-    return tour['statistic']['times']['break'] - sum(e - b for b, e in _tour_break_intervals(tour))
+    # a break written twice (finding C02-F3: transit stop AND activity of the next stop, identical interval) is counted once
+    return tour['statistic']['times']['break'] - sum(e - b for b, e in sorted(set(_tour_break_intervals(tour))))
 
 
 def _waiting_periods(tour):
@@ -1159,6 +1372,43 @@ def rb_reported_twice(tour):
 def tour_has_cluster(tour):
     """python twin of ValidX.is_cluster_tour: some stop reports parking or some activity carries a commute field"""
     return any(st.get('parking') is not None or any(a.get('commute') is not None for a in st['activities']) for st in tour['stops'])
+
+
+def rb_moved_before_departure(p, tour):
+    """structure seen outside the documented fragment (break.md: required breaks need start.latest = start.earliest): a required break reported inside the DEPARTURE stop that ends exactly when the stop is left -
+    the writer moved a break that falls into the first drive in front of it (TransitBreakMoved on leg 0) and let the vehicle depart
+    behind it: the break is counted in times.break and in the cost, the duration is counted from the later departure.
+    Returns its (start, end) or None"""
+    if not tour_required_breaks(p, tour) or not tour['stops'] or 'location' not in tour['stops'][0]:
+        return None
+    st = tour['stops'][0]
+    dep = secs(st['time']['departure'])
+    for a in st['activities']:
+        if a.get('type') == 'break' and a.get('time') and secs(a['time']['end']) == dep and secs(a['time']['start']) < dep:
+            return (secs(a['time']['start']), dep)
+    return None
+
+
+def rb_cost_of_breaks_before_departure(p, s):
+    """structure seen outside the documented fragment (break.md): the amounts duration * time price of the required breaks (exact time) that lie entirely BEFORE
+    the reported departure of their tour (latest + duration <= departure; the shift's departure may move) and are not reported.
+    Returns the list of amounts (one per such break)"""
+    out = []
+    for t in s.get('tours') or []:
+        vt = vehicle_type_of(p, t)
+        brs = tour_required_breaks(p, t)
+        if vt is None or not brs:
+            continue
+        facts = _flat_facts(t)
+        if not facts:
+            continue
+        dep = facts[0]['end']
+        taken = _tour_break_intervals(t)
+        for b in brs:
+            e, l, off = required_break_times(b)
+            if not off and l < dep and not any(e <= x[0] <= l for x in taken):
+                out.append(int(b['duration']) * int(vt['costs']['time']))
+    return out
 
 
 def rb_driving_excess(p, tour):
@@ -1267,8 +1517,8 @@ def unsupported(p, s):
         for vt in p['problem']['fleet']['vehicles']:
             for sh in vt['shifts']:
                 if required_breaks(sh):
-                    if optional_breaks(sh) or sh.get('reloads'):
-                        return 'required breaks together with optional breaks / reloads on one shift'
+                    if optional_breaks(sh):
+                        return 'required breaks together with optional breaks on one shift'
                     if general_routing(p):
                         return 'required break with general routing data'
                     for b in required_breaks(sh):
@@ -1277,11 +1527,21 @@ def unsupported(p, s):
                                 float(b['duration']) != int(b['duration']):
                             return 'required break with non-integer times'
                 if sh.get('recharges'):
-                    return 'recharge stations'
+                    rc = sh['recharges']
+                    if needs_x(p):
+                        return 'recharge stations together with required breaks / clustering'
+                    if float(rc['maxDistance']) != int(rc['maxDistance']) or \
+                            any(float(st['duration']) != int(st['duration']) or 'index' not in st['location'] for st in rc.get('stations') or []):
+                        return 'recharge stations with non-integer data'
                 for b in optional_breaks(sh):
                     if len(b['time']) != 2 or any(float(x) != int(x) for x in b['time'] if not isinstance(x, str)) or \
                             any(float(pl['duration']) != int(pl['duration']) for pl in b['places']):
                         return 'break with non-integer offsets / durations'
+        if has_resources(p):
+            if needs_x(p):
+                return 'reload resources together with required breaks / clustering'
+            if any(len(r['capacity']) != dims for r in p['problem']['fleet'].get('resources') or []):
+                return 'reload resource capacity of another length than the vehicle capacity'
         cl = p['problem']['plan'].get('clustering')
         if cl:
             profs = p['problem']['fleet'].get('profiles') or []
@@ -1363,9 +1623,37 @@ def feature4_labels(c, s):
     """classify() labels shared by C01 / C02 / C03: which round-four features the problem has (`feature4=`) and what the solved
     document actually contains (`doc-has=`), so that the evidence shows how often the rules were exercised"""
     labs = ['feature4=' + f for f in ((c.get('meta') or {}).get('features') or []) if f in FEATURES4]
+    labs += ['feature5=' + f for f in ((c.get('meta') or {}).get('features') or []) if f in FEATURES5]
     if isinstance(s, dict) and 'tours' in s:
         labs += doc_feature_labels(c, s)
+        labs += doc_feature5_labels(c, s)
     return labs
+
+
+def doc_feature5_labels(c, s):
+    """what a solved document shows of the round-five features: how close the stretches between recharges come to maxDistance, how
+    much of every shared reload resource is used"""
+    labs = set()
+    try:
+        if has_recharges(c) and not general_routing(c):
+            for t in s.get('tours') or []:
+                vt = vehicle_type_of(c, t)
+                rc = shift_recharges(vt['shifts'][t.get('shiftIndex', 0)]) if vt else None
+                if rc:
+                    for d, _, _ in recharge_segments(c, t):
+                        labs.add('recharge-stretch=' + ('exactly-at-maxDistance' if d == int(rc['maxDistance']) else
+                                                        'below' if d < int(rc['maxDistance']) else 'above'))
+        if has_resources(c):
+            use = py_resource_use(c, s)
+            for r in c['problem']['fleet'].get('resources') or []:
+                for d, cap in enumerate(r['capacity']):
+                    u = use.get((r['id'], d), 0)
+                    labs.add('resource-use=' + ('none' if u == 0 else 'exactly-exhausted' if u == int(cap) else 'below' if u < int(cap) else 'above'))
+            if any(a.get('type') == 'reload' for t in s.get('tours') or [] for st in t['stops'] for a in st['activities']):
+                labs.add('doc-has=reload-stop-on-problem-with-resources')
+    except Exception:  # noqa
+        pass
+    return sorted(labs)
 
 
 def doc_feature_labels(c, s):
@@ -1661,6 +1949,66 @@ def gen_cluster_relation_cases(rng, n, trace=0):
     return cases
 
 
+def gen_moved_departure_break_cases(rng, n):
+    """n harness cases of the MOVED-DEPARTURE family (seeded change C03-6): one vehicle type whose shift start has NO `latest` (the
+    departure-time optimisation may move the departure), 1-2 REQUIRED breaks given by exact time 3-40 s after the earliest start, and
+    2-5 single jobs whose time windows open 150-300 s later at locations 10-40 s away: the vehicle departs after the breaks are over
+    (they end at most 75 s after the earliest start), so they are no part of the tour and on the unchanged tree none is reported.
+    NOTE: break.md asks for start.latest = start.earliest with required breaks ("a hard requirement when such break type is used";
+    the validator does not enforce it).  This family is the one deliberate step outside that requirement, kept so narrow - the
+    breaks never touch the tour - that the documented behaviour is unambiguous: nothing of the breaks may show in the document.
+    In general problems with required breaks and a movable departure the solver misbehaves in many ways (notes/C03.md, "outside the
+    documented fragment"); they are not generated and not judged"""
+    cases = []
+    while len(cases) < n:
+        m = rng.range(3, 5)
+        xs = [0] + [rng.range(10, 40) for _ in range(m - 1)]
+        mat = [abs(xs[i] - xs[j]) if i != j else 0 for i in range(m) for j in range(m)]
+        # a metric on a line through the depot would make far jobs neighbours: use |xi - xj| on alternating sides
+        sign = [1] + [rng.choice([1, -1]) for _ in range(m - 1)]
+        pos = [xs[i] * sign[i] for i in range(m)]
+        mat = [abs(pos[i] - pos[j]) for i in range(m) for j in range(m)]
+        e1 = rng.choice([0, 0, 20])
+        jobs = []
+        for k in range(rng.range(2, 5)):
+            a = e1 + rng.range(150, 300)
+            pl = {'location': {'index': 1 + k % (m - 1)}, 'duration': rng.choice([0, 2, 5]), 'times': [[rfc(a), rfc(a + rng.range(30, 200))]]}
+            r = rng.below(3)
+            if r == 0:
+                jobs.append({'id': 'j%d' % (k + 1), 'deliveries': [{'places': [pl], 'demand': [1]}]})
+            elif r == 1:
+                jobs.append({'id': 'j%d' % (k + 1), 'pickups': [{'places': [pl], 'demand': [1]}]})
+            else:
+                jobs.append({'id': 'j%d' % (k + 1), 'services': [{'places': [pl]}]})
+        brs, lo = [], e1 + rng.range(3, 30)
+        for _ in range(rng.choice([1, 1, 2])):
+            w = rng.choice([0, 0, rng.range(2, 10)])
+            d = rng.choice([2, 5, 10])
+            if lo + w + d > e1 + 75:
+                break
+            brs.append({'time': {'earliest': rfc(lo), 'latest': rfc(lo + w)}, 'duration': d})
+            lo += w + d + rng.range(5, 20)
+        sh = {'start': {'earliest': rfc(e1), 'location': {'index': 0}}, 'breaks': brs}
+        if rng.chance(2, 3):
+            sh['end'] = {'latest': rfc(e1 + 2000), 'location': {'index': 0}}
+        v = {'typeId': 'v1', 'vehicleIds': ['v1_1'], 'profile': {'matrix': 'car'},
+             'costs': {'fixed': rng.choice([0, 10]), 'distance': rng.choice([0, 1]), 'time': rng.choice([0, 1, 1, 2])},
+             'shifts': [sh], 'capacity': [10]}
+        if v['costs']['distance'] == 0 and v['costs']['time'] == 0:
+            v['costs']['distance'] = 1
+        problem = {'plan': {'jobs': jobs}, 'fleet': {'vehicles': [v], 'profiles': [{'name': 'car'}]}}
+        mats = [{'profile': 'car', 'travelTimes': mat, 'distances': mat}]
+        if sorted(set(used_locations(problem))) != list(range(m)):
+            continue
+        p = {'problem': problem, 'matrices': mats,
+             'meta': {'n': m, 'metric': True, 'tight': False, 'njobs': len(jobs), 'features': ['moved-departure-family']}}
+        c = solve_case(p, {'max_generations': rng.choice([1, 3, 10]), 'parallelism': None, 'quota_after_polls': None,
+                           'seed': rng.below(1000), 'outer_threads': 1})
+        c['meta'] = p['meta']
+        cases.append(c)
+    return cases
+
+
 def renumber_locations(problem, matrices):
     """after a problem was cut down: validation E1504 wants the matrix size to equal the number of DISTINCT locations used"""
     n = matrix_size(matrices[0])
@@ -1794,6 +2142,17 @@ def _flat_facts(t):
     return out
 
 
+def _stripped_tour(t):
+    """python twin of ValidX.strip_tour: the tour without its break activities; a stop that held only breaks disappears"""
+    stops = []
+    for st in t['stops']:
+        acts = st['activities']
+        if acts and all(a.get('type') == 'break' for a in acts):
+            continue
+        stops.append(dict(st, activities=[a for a in acts if a.get('type') != 'break']))
+    return dict(t, stops=stops)
+
+
 def _reload_fits(a, r):
     if r['location']['index'] != a['loc'] or int(r['duration']) != a['end'] - a['start']:
         return False
@@ -1907,7 +2266,10 @@ def py_accounting(p, s):
         if key in seen:
             v.append(('AShiftTwice', k))
         seen.append(key)
-        if any(a[1] not in jobkinds + ('departure', 'arrival', 'reload', 'break') for a in flats[k]):
+        # ValidY.accounted5 (problems with recharge stations): recharge activities are masked for every other clause and
+        # judged by ARecharge below
+        allowed = jobkinds + ('departure', 'arrival', 'reload', 'break') + (('recharge',) if has_recharges(p) else ())
+        if any(a[1] not in allowed for a in flats[k]):
             v.append(('AExtraActivity', k))
         shift = None
         for vt in pr['fleet']['vehicles']:
@@ -1916,6 +2278,12 @@ def py_accounting(p, s):
                 shift = vt['shifts'][t.get('shiftIndex', 0)]
         if shift is not None:
             racts = [a for a in _flat_facts(t) if a['kind'] == 'reload']
+            if required_breaks(shift):
+                # ValidY.reloads_ok_rb: the reload activities of the tour WITHOUT its break activities / transit stops, each with
+                # its NET length (the part of its reported interval outside the reported breaks)
+                B = _tour_break_intervals(t)
+                racts = [dict(a, end=a['start'] + (a['end'] - a['start'] - sum(max(0, min(e, a['end']) - max(b, a['start'])) for b, e in B)))
+                         for a in _flat_facts(_stripped_tour(t)) if a['kind'] == 'reload']
             if not _assignable(racts, list(shift.get('reloads') or [])):
                 v.append(('AReload', k))
             facts = _flat_facts(t)
@@ -1936,6 +2304,12 @@ def py_accounting(p, s):
                     v.append(('ARequiredBreak', k))
             elif not _assignable(bacts, optional_breaks(shift), _break_fits(facts[0]['end'] if facts else 0)):
                 v.append(('ABreak', k))
+        if has_recharges(p):
+            # ValidY.recharge_viols: the recharge activities of the tour are DISTINCT stations of its vehicle shift (none defined:
+            # none may appear); a tour that names no existing shift has no stations
+            stations = list((shift_recharges(shift) or {}).get('stations') or []) if shift is not None else []
+            if not _assignable([a for a in _flat_facts(t) if a['kind'] == 'recharge'], stations):
+                v.append(('ARecharge', k))
     # ValidX.member_viols: an activity that carries a commute field belongs to a plan job with exactly one task that is not listed
     # in clustering.filtering.excludeJobIds
     cl = pr['plan'].get('clustering')
@@ -1951,6 +2325,116 @@ def py_accounting(p, s):
                         v.append(('AClusterMember', k, i))
                 i += 1
     return sorted(v)
+
+
+def recharge_segments(p, tour):
+    """python twin of ValidY.tour_items / seg_ok for the classic fragment (one matrix): the distances driven between the departure,
+    consecutive recharge activities and the end of a document tour, [(distance, first flattened index, last flattened index)]"""
+    m = p['matrices'][0]
+    n = matrix_size(m)
+    err = m.get('errorCodes')
+    flat = _flat_tour(tour)
+    out, acc, first = [], 0, 0
+    for i in range(1, len(flat)):
+        a, b = flat[i - 1][2], flat[i][2]
+        acc += -1 if err and err[a * n + b] > 0 else m['distances'][a * n + b]
+        if flat[i][1] == 'recharge' or i == len(flat) - 1:
+            out.append((acc, first, i))
+            acc, first = 0, i
+    return out
+
+
+def recharge_distance_exceeded(p, s):
+    """python twin of ValidY.recharge_dist_viols (classic fragment): indices of the tours with a stretch between two recharges
+    (departure / end) longer than recharges.maxDistance"""
+    out = []
+    for k, t in enumerate(s.get('tours') or []):
+        vt = vehicle_type_of(p, t)
+        if vt is None or t.get('shiftIndex', 0) >= len(vt['shifts']):
+            continue
+        rc = shift_recharges(vt['shifts'][t.get('shiftIndex', 0)])
+        if rc and any(d > int(rc['maxDistance']) for d, _, _ in recharge_segments(p, t)):
+            out.append(k)
+    return out
+
+
+def py_resource_use(p, s):
+    """python twin of ValidY.resource_use: {(resource id, dimension): static deliveries loaded at the reload stops that draw on it};
+    a reload stop is the FIRST reload of its shift with its location and duration; activities -> tasks by kind and location"""
+    jobs = {j['id']: j for j in p['problem']['plan']['jobs']}
+    kindno = {'pickup': 0, 'delivery': 1, 'service': 2, 'replacement': 3}
+    dims = capacity_dims(p)
+    use = {}
+    for t in s.get('tours') or []:
+        vt = vehicle_type_of(p, t)
+        if vt is None or t.get('shiftIndex', 0) >= len(vt['shifts']):
+            continue
+        sh = vt['shifts'][t.get('shiftIndex', 0)]
+        cur = None
+        for a in _flat_facts_ids(t):
+            if a['kind'] == 'reload':
+                cur = None
+                for r in sh.get('reloads') or []:
+                    if r['location']['index'] == a['loc'] and int(r['duration']) == a['end'] - a['start']:
+                        cur = r.get('resourceId')
+                        break
+            elif a['kind'] in kindno and cur is not None:
+                j = jobs.get(a['job'])
+                if j is None:
+                    continue
+                static = not (j.get('pickups') and j.get('deliveries'))
+                for kind, tk in tasks_of(j):
+                    if kind == kindno[a['kind']] and any(pl['location']['index'] == a['loc'] for pl in tk['places']):
+                        dem = list(tk.get('demand') or []) + [0] * dims
+                        if (kind == 1 and static) or kind == 3:
+                            for d in range(dims):
+                                use[(cur, d)] = use.get((cur, d), 0) + int(dem[d])
+                        break
+    return use
+
+
+def resource_multi_task_contributors(p, s, rid):
+    """ids of the multi-task jobs one of whose static deliveries / replacements is loaded at a reload stop that draws on resource rid"""
+    jobs = {j['id']: j for j in p['problem']['plan']['jobs']}
+    out = []
+    for t in s.get('tours') or []:
+        vt = vehicle_type_of(p, t)
+        if vt is None or t.get('shiftIndex', 0) >= len(vt['shifts']):
+            continue
+        sh = vt['shifts'][t.get('shiftIndex', 0)]
+        cur = None
+        for a in _flat_facts_ids(t):
+            if a['kind'] == 'reload':
+                cur = None
+                for r in sh.get('reloads') or []:
+                    if r['location']['index'] == a['loc'] and int(r['duration']) == a['end'] - a['start']:
+                        cur = r.get('resourceId')
+                        break
+            elif cur == rid and a['kind'] in ('delivery', 'replacement'):
+                j = jobs.get(a['job'])
+                if j is not None and len(tasks_of(j)) > 1 and (a['kind'] == 'replacement' or not (j.get('pickups') and j.get('deliveries'))):
+                    out.append(a['job'])
+    return sorted(set(out))
+
+
+def py_resource_viols(p, s):
+    """python twin of ValidY.resource_viols: sorted [(resource id string, dimension)] whose use exceeds the capacity"""
+    use = py_resource_use(p, s)
+    return sorted((r['id'], d) for r in p['problem']['fleet'].get('resources') or [] for d, c in enumerate(r['capacity'])
+                  if use.get((r['id'], d), 0) > int(c))
+
+
+def _flat_facts_ids(t):
+    """_flat_facts with the job id of every activity"""
+    out = []
+    for st, f in zip([st for st in t['stops'] for _ in st['activities']], _flat_facts(t)):
+        out.append(f)
+    i = 0
+    for st in t['stops']:
+        for a in st['activities']:
+            out[i] = dict(out[i], job=a.get('jobId'))
+            i += 1
+    return out
 
 
 def unreachable_legs(p, s):
@@ -2019,4 +2503,17 @@ def panic_class(c, msg):
         # the start of the work behind the window's end; TransportConstraint::evaluate_activity returns success for the LAST
         # activity of an open-end tour before it looks at that departure, and the writer's format_time unwraps the timestamp
         return 'writer-panic-required-break-open-end-shift-departure-f64-max'
+    if 'ComponentRange' in msg and 'timestamp' in msg and \
+            any(any(not required_break_times(b)[2] for b in required_breaks(sh)) and
+                (sh['start'].get('latest') is None or secs(sh['start']['latest']) != secs(sh['start']['earliest']))
+                for vt in c['problem']['fleet']['vehicles'] for sh in vt['shifts']):
+        # NOT a known finding (break.md asks for start.latest = start.earliest with required breaks; such problems are not generated):
+        # the departure-time optimisation moves the departure of a shift with an exact-time required break; the reserved time then
+        # pushes the start of an activity behind its window's end, estimate_departure answers f64::MAX, nothing re-checks, and the
+        # writer's format_time unwraps the timestamp
+        return 'writer-panic-required-break-movable-departure-f64-max'
+    if 'cannot get activity by idx' in msg and has_resources(c):
+        # finding C01-F16 / C02-F6 / C03-F10: SharedResourceState (reloads.rs) reads the reload intervals cached in the route state
+        # and indexes the tour with them (get_activity_by_idx ... expect) after the tour has changed
+        return 'solver-panic-shared-reload-resource-state-indexes-tour-with-stale-intervals'
     return 'solver-panic'
